@@ -204,6 +204,11 @@ func (t *Table) ScanPrefix(prefix []byte, errOut *error) iter.Seq[kv.Entry] {
 	cur := storage.NewBoundedCursor(t.file, 0, uint64(t.entriesSize))
 
 	return func(yield func(kv.Entry) bool) {
+		// A table without entries has nothing to scan (and a zero end bound
+		// would leave the cursor unbounded, reading the footer as entries).
+		if t.entriesSize == 0 {
+			return
+		}
 		for {
 			key, err := fields.ReadVarBytes(cur)
 			if errors.Is(err, io.EOF) {
